@@ -197,14 +197,15 @@ def check_case(case, acc):
     # ... after the style object it draws with was given other glyphs (its vertical/cont/end are plain public attributes)
     if not isinstance(style, type) and all(len(g) >= 1 for g in glyphs):
         old = (style.vertical, style.cont, style.end)
-        new = ("!" + old[0][1:], "+" + old[1][1:], "\\" + old[2][1:])
-        style.vertical, style.cont, style.end = new
         try:
-            exp = ref_rows(tree[case["start"]], childiter_of(case["childiter"]), case["maxlevel"], new)
-            fresh = RenderTree(tree[case["start"]], style=style, childiter=childiter_of(case["childiter"]), maxlevel=case["maxlevel"])
-            for what, rt in (("a RenderTree object that was iterated before", kept), ("a new RenderTree object", fresh)):
-                if [(r.pre, r.fill, id(r.node)) for r in rt] != [(e[0], e[1], id(e[2])) for e in exp]:
-                    raise Violation("style-glyphs", "%s does not draw with the glyphs its style object has now (%r)" % (what, new))
+            # same width, then another (still equal) width: whatever a style derives from its glyphs follows them
+            for new in (("!" + old[0][1:], "+" + old[1][1:], "\\" + old[2][1:]), ("!" + old[0], "+" + old[1], "\\" + old[2]), ("!", "+", "\\")):
+                style.vertical, style.cont, style.end = new
+                exp = ref_rows(tree[case["start"]], childiter_of(case["childiter"]), case["maxlevel"], new)
+                fresh = RenderTree(tree[case["start"]], style=style, childiter=childiter_of(case["childiter"]), maxlevel=case["maxlevel"])
+                for what, rt in (("a RenderTree object that was iterated before", kept), ("a new RenderTree object", fresh)):
+                    if [(r.pre, r.fill, id(r.node)) for r in rt] != [(e[0], e[1], id(e[2])) for e in exp]:
+                        raise Violation("style-glyphs", "%s does not draw with the glyphs its style object has now (%r)" % (what, new))
         finally:
             style.vertical, style.cont, style.end = old
         acc.tag("re-rendered_after_the_style_object_changed")
@@ -288,6 +289,8 @@ def _rows_once(case, acc, tree, labels, cls):
                 val = list(spec["v"])
             elif spec["t"] == "tuple":
                 val = tuple(spec["v"])
+            elif spec["t"] == "pairs":
+                val = [tuple(x) for x in spec["v"]]  # a list of lines that are themselves tuples: each is printed as one value
             elif spec["t"] == "range":
                 val = range(*spec["v"])  # a sequence, but neither list nor tuple: printed as ONE value, like any other object
             elif spec["t"] == "deque":
@@ -423,6 +426,7 @@ VALUE = st.one_of(
     multi_line().map(lambda v: {"t": "str", "v": v}),
     st.lists(LINE, max_size=3).map(lambda v: {"t": "list", "v": v}),
     st.lists(LINE, max_size=3).map(lambda v: {"t": "tuple", "v": v}),
+    st.lists(st.lists(st.integers(0, 3), max_size=2), min_size=1, max_size=3).map(lambda v: {"t": "pairs", "v": v}),
     st.integers(-5, 5).map(lambda v: {"t": "int", "v": v}),
     st.tuples(st.integers(0, 2), st.integers(0, 4)).map(lambda v: {"t": "range", "v": list(v)}),
     st.lists(st.integers(0, 3), max_size=3).map(lambda v: {"t": "deque", "v": v}),
